@@ -214,6 +214,12 @@ def gen_plan(rng, index, tier):
         nodes = schedule.node_numbering(hist)[1:]
         if nodes:
             c, nd = rng.choice(nodes)
+            # the node that ends a cycle is a restart point like any other (there the loop over the
+            # burn steps does not run at all); preferred where the cycle's power fraction is not one
+            ends = [(c_, n_) for (c_, n_) in nodes if n_ == hist["burnSteps"][c_] and n_ > 0]
+            off = [(c_, n_) for (c_, n_) in ends if hist["pfs"][c_][n_ - 1] != 1.0]
+            if (off or ends) and rng.random() < 0.4:
+                c, nd = rng.choice(off or ends)
             cfg["restart"] = {"startCycle": c, "startNode": nd}
     return {"config": cfg, "steps": steps}
 
